@@ -35,6 +35,9 @@ def sched? (s : String) : Option (List Nat) :=
 /-- Where this tree's `writeDump` keeps a marshaled block (regenerated fact). -/
 def writerLocal : Bool := Gen.Facts.c19WriterStateLocal == some true
 
+/-- The kind of the key field in this tree's dump schema (regenerated fact). -/
+def keyKind : FieldKind := if Gen.Facts.c19KeyFieldIsBytes == some true then .bytes else .utf8
+
 /-- `load <entry sizes: s1+s2,s3> <plaintext bytes available> <clean 0|1>`
  -> `<entries stored> <error 0|1>`;  `raw <hex plaintext> <clean>` for crafted streams. -/
 def handle : List String → String
@@ -56,6 +59,13 @@ def handle : List String → String
       let r1 := load dec (b0.length + b1.length + 2) (w.dumps 1).out (clean 1)
       s!"{r0.1.length} {Hex.showBool r0.2} {r1.1.length} {Hex.showBool r1.2}"
     | _, _, _ => "bad-op"
+  -- `wr <hex key>,<hex key>,...`: writeDump of a one-block cache holding these keys -> `<entries written> <error 0|1>`
+  | ["wr", ks] =>
+    match (ks.splitOn ",").mapM Hex.decode with
+    | some keys =>
+      let r := written keyKind id [keys]
+      s!"{r.1.flatten.length} {Hex.showBool r.2}"
+    | none => "bad-op"
   | ["raw", h, clean] =>
     match Hex.decode h, Hex.bool? clean with
     | some p, some clean =>
